@@ -1009,6 +1009,60 @@ def _type_members(repo):
     return out
 
 
+_ABSENT = object()
+
+
+def _module_value(mod, nm, ev):
+    """value of a module-level name after ALL the module-level statements that bind or modify it, in order: `T = dict()` ...
+    `T.update({...})`, `T[k] = v`, `T |= {...}`, `L.append(x)`.  A module-level statement that touches the name in another way
+    (inside if / for / try / with, deleted, rebound by unpacking ...) makes the value unknown (hd_eval.Unknown)."""
+    val = _ABSENT
+
+    def mentions(node):
+        return any(isinstance(n, ast.Name) and n.id == nm for n in ast.walk(node))
+    if not any(isinstance(n, ast.Name) and n.id == nm and isinstance(n.ctx, ast.Store) for st in mod.tree.body
+               if not isinstance(st, (ast.FunctionDef, ast.AsyncFunctionDef, ast.ClassDef)) for n in ast.walk(st)):
+        return _ABSENT                   # not a name of the module (a builtin, an import ...)
+    for st in mod.tree.body:
+        if isinstance(st, (ast.FunctionDef, ast.AsyncFunctionDef, ast.ClassDef, ast.Import, ast.ImportFrom)):
+            continue                     # reads inside functions / classes happen after the module is loaded
+        if not mentions(st):
+            continue
+        if isinstance(st, ast.Assign) and len(st.targets) == 1 and isinstance(st.targets[0], ast.Name) and st.targets[0].id == nm:
+            val = ev.expr(st.value, {})
+        elif isinstance(st, ast.AnnAssign) and isinstance(st.target, ast.Name) and st.target.id == nm:
+            if st.value is not None:
+                val = ev.expr(st.value, {})
+        elif isinstance(st, ast.Assign) and len(st.targets) == 1 and isinstance(st.targets[0], ast.Subscript) and isinstance(st.targets[0].value, ast.Name) \
+                and st.targets[0].value.id == nm and isinstance(val, (dict, list)):
+            val[ev.expr(st.targets[0].slice, {})] = ev.expr(st.value, {})
+        elif isinstance(st, ast.AugAssign) and isinstance(st.target, ast.Name) and st.target.id == nm and val is not _ABSENT \
+                and isinstance(st.op, (ast.BitOr, ast.Add)):
+            rhs = ev.expr(st.value, {})
+            if isinstance(val, dict) and isinstance(rhs, dict) and isinstance(st.op, ast.BitOr):
+                val = {**val, **rhs}
+            elif isinstance(val, (set, frozenset)) and isinstance(rhs, (set, frozenset)) and isinstance(st.op, ast.BitOr):
+                val = val | rhs
+            elif isinstance(val, (list, tuple)) and type(rhs) is type(val) and isinstance(st.op, ast.Add):
+                val = val + rhs
+            else:
+                raise hd_eval.Unknown(f"module-level update of {nm}")
+        elif isinstance(st, ast.Expr) and isinstance(st.value, ast.Call) and isinstance(st.value.func, ast.Attribute) and isinstance(st.value.func.value, ast.Name) \
+                and st.value.func.value.id == nm and st.value.func.attr in ("update", "add", "append", "extend", "setdefault", "insert") \
+                and isinstance(val, (dict, list, set)) and not st.value.keywords:
+            args = [ev.expr(a, {}) for a in st.value.args]
+            try:
+                getattr(val, st.value.func.attr)(*args)
+            except Exception as e:  # noqa
+                raise hd_eval.Unknown(f"module-level update of {nm}: {e}")
+        elif isinstance(st, ast.Assign) and not any(isinstance(n, ast.Name) and n.id == nm and isinstance(n.ctx, ast.Store) for t in st.targets for n in ast.walk(t)) \
+                and not any(isinstance(n, ast.Call) and mentions(n) for n in ast.walk(st.value)):
+            continue                     # the name is only read (another table built from it)
+        else:
+            raise hd_eval.Unknown(f"the module-level table {nm} is modified by a statement that is not read (line {getattr(st, 'lineno', 0)})")
+    return val
+
+
 def _evaluator(repo, methods=None):
     members = _type_members(repo)
     enum = hd_eval.Enum("Type", members)
@@ -1043,14 +1097,12 @@ def _evaluator(repo, methods=None):
         if nm in ("np", "numpy"):
             return hd_eval.NUMPY
         for st in mod.tree.body:
-            if isinstance(st, ast.Assign) and len(st.targets) == 1 and isinstance(st.targets[0], ast.Name) and st.targets[0].id == nm:
-                cache[nm] = ev.expr(st.value, {})
-                return cache[nm]
-            if isinstance(st, ast.AnnAssign) and isinstance(st.target, ast.Name) and st.target.id == nm and st.value is not None:
-                cache[nm] = ev.expr(st.value, {})
-                return cache[nm]
             if isinstance(st, ast.FunctionDef) and st.name == nm:
                 return hd_eval.Func(st)
+        val = _module_value(mod, nm, ev)
+        if val is not _ABSENT:
+            cache[nm] = val
+            return val
         if nm == "itertools":
             import itertools
             return hd_eval.NS("itertools", {k: getattr(itertools, k) for k in ("combinations", "permutations", "product", "chain", "accumulate", "pairwise", "islice")})
